@@ -42,6 +42,12 @@ func c10Cases(c *core.Ctx) []VCase {
 	} {
 		cases = append(cases, VCase{Srcs: []string{sdl}, Query: q, Expect: "invalid"})
 	}
+	// the small-scope family (pairs included: the same construct twice under one response name)
+	stride := 2000
+	if !c.Quick {
+		stride = 100
+	}
+	cases = append(cases, SmallScope(stride)...)
 	return cases
 }
 
